@@ -441,6 +441,8 @@ def run_case(case, workdir):
 
 
 def shrink_candidates(case):
+    if case.get("kind") == "blackjax":
+        return []  # the scenario is already small; the generic shrinkers assume the numpy model
     if case.get("kind") == "flowpre":
         return []
     scn = scenario_of(case)
